@@ -981,6 +981,8 @@ func (r *runner) generateConfs() {
 			}
 		}
 	}
+	// --- systematic: SecDefaultAction with every disruptive action x inheriting rules ---
+	r.generateDefaultActions()
 	// --- systematic: boundary values of every ctl option in rules that match ---
 	r.generateCtlBoundary()
 	// --- systematic: operator arguments that reach the operators' inner branches x derived traffic ---
